@@ -148,6 +148,9 @@ var envTemplates = []string{
 	"(do (def %Pj (fn [v] (try (throw [v (quote %Pj)]) (catch err (fn [] err))))) (let [cs (map %Pj [1 2 3 4 5 6 7 8])] (%T (map (fn [c] (c)) cs))) (map (fn [c] (c)) (map %Pj [9 10])))",
 	"(do (def %Ph (fn [n acc] (if (< n 1) acc (%Ph (- n 1) (conj acc (try (throw (quote %Ph)) (catch err (future-call (fn [] (str err n)))))))))) (map deref (%Ph 10 [])))",
 	"(do (defmacro %Pb (fn [x] (let [g (fn [] x)] (list g)))) (def %Po (fn [n acc] (if (< n 1) acc (%Po (- n 1) (+ acc (%Pb 3)))))) (%Po 40 0))",
+	// several waiters (futures of this program) on ONE pending future: every one of them gets the outcome
+	"(do (def %Px (future (do (sleep 25) (quote %Px)))) (let [w1 (future (deref %Px)) w2 (future (deref %Px)) w3 (future (deref %Px))] [(deref w1) (deref w2) (deref w3) (deref %Px)]))",
+	"(do (def %Pd (future (do (sleep 20) (throw {:why (quote %Pd)})))) (let [w (fn [] (future (try (deref %Pd) (catch e e)))) a (w) b (w)] [(deref a) (deref b) (try (deref %Pd) (catch e e))]))",
 	// errors caught while other evaluations run
 	"(do (def %Pq (fn [n acc] (if (< n 1) acc (%Pq (- n 1) (try (throw (+ acc 1)) (catch e e)))))) (%T (%Pq 30 0)))",
 }
